@@ -431,6 +431,32 @@ func (c *Ctx) ufInt(name string, nargs int) string {
 		}
 		c.declareFun(name, args, "Int")
 		c.notes["int-mode: operator abstracted as uninterpreted function "+name] = true
+		// the identities with zero that hold for the real operator at every width (so that, e.g., the zig-zag
+		// of 0 is 0 in integer mode too)
+		ax := func(lhs, rhs string) {
+			c.decls = append(c.decls, fmt.Sprintf("(assert (forall ((x!u Int)) (! (= %s %s) :pattern (%s))))", lhs, rhs, lhs))
+		}
+		op := name
+		if i := strings.Index(name, "_"); i > 0 {
+			op = name[:i]
+		}
+		if nargs == 2 {
+			l0, r0 := fmt.Sprintf("(%s 0 x!u)", name), fmt.Sprintf("(%s x!u 0)", name)
+			switch op {
+			case "and":
+				ax(l0, "0")
+				ax(r0, "0")
+			case "or", "xor":
+				ax(l0, "x!u")
+				ax(r0, "x!u")
+			case "andnot":
+				ax(l0, "0")
+				ax(r0, "x!u")
+			case "shl", "shr":
+				ax(l0, "0")
+				ax(r0, "x!u")
+			}
+		}
 	}
 	return name
 }
